@@ -331,4 +331,4 @@ def _obligations():
 
 
 def obligations():
-    return _obligations() + [labels_obligation("C11"), selectors_obligation("C11"), effects_obligation("C11"), plumbing_obligation("C11"), overrides_obligation("C11"), options_obligation("C11")]
+    return _obligations() + [labels_obligation("C11"), selectors_obligation("C11"), effects_obligation("C11"), plumbing_obligation("C11"), overrides_obligation("C11"), options_obligation("C11"), handlers_obligation("C11")]
